@@ -37,6 +37,17 @@ Round-3 families (EXTENDING.md; every one is an additional task, labels say whic
                        alarms followed by long quiet stretches, in lock-step with
                        the model; variants quiet / sustained drift / warning pause
   ConfirmedTLA         thorough: N = 4, MaxSens = 5 (2.3e6 edges)
+
+Round-5 families (TWO election objects alive in one process; "fn" tasks, so the generic Pair: family does not reach
+them; system ElectionPair; every object judged by its own voting-rule model):
+  PairVotes|AxB|na,nb  stateless rules: every ordered pair of parameter sets (same class: same / different parameters,
+                       equal / different member counts; different classes) x every interleaving of (construct, sweep
+                       all vectors, sweep again) of the two objects + strict alternation over every ordered pair of
+                       vectors on the caller's persistent member objects (one list object for both elections)
+  PairConfirmed|tree   every ordered pair of (sensitivity, wait_time) x every pair of vote-vector histories of length h
+                       x every interleaving of [construct, calls] of the two objects
+  PairConfirmed|reach  every joint counter state of the two objects (incl. "not constructed yet") x every sequence of
+                       `tail` enabled operations (construct either / call either on any vector)
 """
 import array
 import itertools
@@ -59,7 +70,7 @@ from menelaus.ensemble import (
     SimpleMajorityElection,
 )
 
-from mc import explorer
+from mc import explorer, procstate
 from mc.explorer import Ctx, HarnessError, System, Violation, artefact, run_path
 from models import election as M
 
@@ -914,7 +925,459 @@ def tla_task(task, seed):
 
 
 # --------------------------------------------------------------------------
-SYSTEMS = {"Votes": VoteSys(), "Confirmed": ConfirmedSys(), "ConfirmedTLA": ScriptSys()}
+# part 4 (round 5): TWO election objects alive in one process
+# --------------------------------------------------------------------------
+def _vectors(n):
+    return [list(v) for v in itertools.product(REPORTS, repeat=n)]
+
+
+def interleavings(x, y):
+    """every merge of the two op lists that keeps the order inside each list"""
+    if not x:
+        yield list(y)
+        return
+    if not y:
+        yield list(x)
+        return
+    for r in interleavings(x[1:], y):
+        yield [x[0]] + r
+    for r in interleavings(x, y[1:]):
+        yield [y[0]] + r
+
+
+_VERDICT_KEY = {(k, g): "pair_%s_verdict_%s" % (k, TAG[g]) for k in ("SimpleMajority", "MinimumApproval", "OrderedApproval", "Confirmed")
+                for g in REPORTS}
+
+
+def _side_text(side):
+    p = side["params"]
+    return "%s(%s) on %d members" % (side["kind"], ", ".join("%s=%r" % kv for kv in sorted(p.items())), side["n"])
+
+
+class PairSys(System):
+    """Two election objects ``a`` (index 0) and ``b`` (index 1), each with its OWN voting-rule model.  Events:
+        ["new", k]          construct object k (its parameters are in cfg["a"] / cfg["b"])
+        ["call", k, votes]  one call of object k
+        ["sweep", k]        object k is called on EVERY vector of {None, warning, drift}^n_k (stateless rules)
+        ["alt"]             for every ordered pair (v, v'): a(v) then b(v')   (strict alternation, every adjacent pair)
+    After every call the verdict (and, for ConfirmedElection, the counters) of the called object is judged by its own
+    model and the counters of the OTHER object must still be what its own last call left.  Nothing is demanded that a
+    solo object would not have to satisfy: on code whose objects are independent the pair is two solo runs."""
+
+    name = "ElectionPair"
+
+    def init(self, cfg):
+        n = max(cfg["a"]["n"], cfg["b"]["n"])
+        return {"el": [None, None], "model": [None, None], "calls": [0, 0], "born_after_call_of_other": [False, False],
+                "last": [None, None], "members": [Stub(None) for _ in range(n)] if cfg.get("share") else None}
+
+    def alphabet(self, cfg, state, pos):
+        return []
+
+    # -- one judged call ------------------------------------------------------
+    def _members(self, cfg, state, k, vec, st):
+        pool = state["members"]
+        if pool is None:
+            return None
+        for m, s in zip(pool, vec):
+            m.drift_state = s
+        st["pair_calls_on_the_callers_persistent_member_objects"] += 1
+        if len(vec) == len(pool):
+            if cfg["a"]["n"] == cfg["b"]["n"]:
+                st["pair_calls_with_the_same_list_object_for_both_elections"] += 1
+            return pool
+        return pool[: len(vec)]
+
+    @staticmethod
+    def _where(cfg, state, k):
+        side, other = cfg["ab"[k]], cfg["ab"[1 - k]]
+        order = state["order"]
+        if (1 - k) not in order:
+            other_is = "not constructed yet"
+        else:
+            other_is = "constructed %s, called %d times" % ("earlier" if order.index(1 - k) < order.index(k) else "later", state["calls"][1 - k])
+        return "two elections alive in one process: this one is %s = %s (call %d of it), the other is %s (%s)" % (
+            "ab"[k], _side_text(side), state["calls"][k] + 1, _side_text(other), other_is)
+
+    def _one(self, cfg, state, k, vec, ctx):
+        side = cfg["ab"[k]]
+        kind = side["kind"]
+        el = state["el"][k]
+        st = ctx.stats
+        if el is None:
+            raise HarnessError("HARNESS-CRASH: ElectionPair program calls object %d before constructing it" % k)
+        members = self._members(cfg, state, k, vec, st)
+        try:
+            if kind == "Confirmed":
+                got = _call(el, vec, "Confirmed", members)
+                exp = state["model"][k].step(vec)
+                _check_confirmed_call(side["params"], el, vec, got, exp)
+            else:
+                got = _call(el, vec, kind, members)
+                if not _is_verdict(got, ("drift",)):
+                    raise Violation(kind + "-range", "returned %r on votes %r; only \"drift\" or None are allowed" % (got, vec),
+                                    expected=["drift", None], observed=repr(got))
+                exp = state["model"][k].step(vec)
+                if got != exp["verdict"]:
+                    raise Violation(kind + "-rule", "on votes %r (%d of %d drift) returned %r, the voting rule says %r"
+                                    % (vec, M.n_drift(vec), len(vec), got, exp["verdict"]), expected=exp["verdict"], observed=got)
+        except Violation as v:
+            raise Violation("Pair-" + v.sub, self._where(cfg, state, k) + ": " + v.msg, expected=v.expected, observed=v.observed)
+        state["calls"][k] += 1
+        if cfg["ab"[1 - k]]["kind"] == "Confirmed":
+            self._other_untouched(cfg, state, 1 - k, "a call of the other object")
+        # ---- anti-vacuity bookkeeping
+        st["pair_calls"] += 1
+        st[_VERDICT_KEY[kind, got]] += 1
+        if got is not None:
+            ctx.marks += 1
+        lo = state["last"][1 - k]
+        if state["el"][1 - k] is not None:
+            st["pair_calls_while_both_objects_exist"] += 1
+            if state["order"][-1] != k:
+                st["pair_older_object_called_after_the_newer_one_was_constructed"] += 1
+                if state["born_after_call_of_other"][1 - k]:
+                    st["pair_object_called_again_after_the_other_was_constructed_in_between"] += 1
+            if lo is not None:
+                if lo[0] == vec:
+                    if lo[1] != got:
+                        st["pair_same_votes_different_verdicts_from_the_two_objects"] += 1
+                elif len(lo[0]) == len(vec):
+                    st["pair_adjacent_calls_with_different_votes"] += 1
+        if kind == "Confirmed":
+            if exp["alarms"] and self._waiting(state, 1 - k):
+                st["pair_confirmed_alarm_while_the_other_object_has_waiting_members"] += 1
+            if exp["waiting_votes"] and lo is not None:
+                st["pair_confirmed_waiting_vote_after_a_call_of_the_other_object"] += 1
+            if exp["expired"] and self._waiting(state, 1 - k):
+                st["pair_confirmed_expiry_while_the_other_object_still_waits"] += 1
+            if exp["warned_while_waiting"]:
+                st["pair_confirmed_warning_while_waiting"] += 1
+        state["last"][k] = (vec, got)
+        return got
+
+    @staticmethod
+    def _waiting(state, k):
+        m = state["model"][k]
+        return m is not None and getattr(m, "left", None) is not None and any(m.left)
+
+    def _other_untouched(self, cfg, state, k, what):
+        """ConfirmedElection: the public counters of object k are read after an operation on the other object"""
+        side = cfg["ab"[k]]
+        el = state["el"][k]
+        if el is None or side["kind"] != "Confirmed":
+            return
+        want = state["model"][k].expected_counters()
+        cs = el.wait_period_counters
+        if (None if cs is None else list(cs)) != want:
+            raise Violation(
+                "Pair-Confirmed-counters-changed-by-the-other-object",
+                "two elections alive in one process: wait_period_counters of %s %s read %r after %s (%s); its own last "
+                "call left %r" % ("ab"[k], _side_text(side), cs, what, _side_text(cfg["ab"[1 - k]]), want),
+                expected=want, observed=None if cs is None else list(cs))
+
+    def _obs(self, state):
+        out = []
+        for el in state["el"]:
+            cs = getattr(el, "wait_period_counters", None) if el is not None else None
+            out.append(None if cs is None else list(cs))
+        return out
+
+    def step(self, cfg, state, ev, pos, ctx):
+        op = ev[0]
+        state.setdefault("order", [])
+        if op == "new":
+            k = ev[1]
+            side = cfg["ab"[k]]
+            if state["el"][k] is not None:
+                raise HarnessError("HARNESS-CRASH: ElectionPair program constructs object %d twice" % k)
+            el = _construct(side["kind"], side["params"])
+            _constructed(el, side["kind"], side["params"])
+            state["el"][k] = el
+            state["model"][k] = M.make_model(side["kind"], side["params"])
+            state["order"].append(k)
+            if state["calls"][1 - k]:
+                state["born_after_call_of_other"][k] = True
+                ctx.count("pair_object_constructed_after_the_other_was_called")
+                if self._waiting(state, 1 - k):
+                    ctx.count("pair_confirmed_constructed_while_the_other_object_has_waiting_members")
+            self._other_untouched(cfg, state, 1 - k, "the construction of the other object")
+            return {"new": k, "counters": self._obs(state)}
+        if op == "call":
+            got = self._one(cfg, state, ev[1], list(ev[2]), ctx)
+            return {"verdict": got, "counters": self._obs(state)}
+        if op == "sweep":
+            k = ev[1]
+            tally = Counter()
+            for vec in _vectors(cfg["ab"[k]]["n"]):
+                tally[TAG[self._one(cfg, state, k, vec, ctx)]] += 1
+            ctx.count("pair_sweeps")
+            return {"verdicts": dict(tally)}
+        if op == "alt":
+            tally = Counter()
+            vb = _vectors(cfg["b"]["n"])
+            for va in _vectors(cfg["a"]["n"]):
+                for v2 in vb:
+                    tally["a:" + TAG[self._one(cfg, state, 0, va, ctx)]] += 1
+                    tally["b:" + TAG[self._one(cfg, state, 1, v2, ctx)]] += 1
+            ctx.count("pair_alternations")
+            return {"verdicts": dict(tally)}
+        raise HarnessError("HARNESS-CRASH: unknown ElectionPair event %r" % (ev,))
+
+
+VALIDATE_EVERY = 199
+
+
+def _run_programs(cfg, programs, seed, ctx, out):
+    """Every program on freshly constructed objects, every step judged.  The process-level state of menelaus is reset
+    (mc.procstate) before the first program of a configuration; every VALIDATE_EVERY-th program and every violating one is
+    executed again from a pristine process state and must give the same observations.  If it does not -- the code under
+    test keeps state outside the objects -- ALL programs of the configuration are run again with a reset before each
+    (so that every verdict is a function of the program alone and replays in a fresh process)."""
+    sysm = SYSTEMS["ElectionPair"]
+    st = ctx.stats
+    snapshot = Counter(st)
+    n_viol, n_samp = len(out["violations"]), len(out["samples"])
+    reported = Counter(out["reported"])
+    for fresh in (False, True):
+        hidden = False
+        procstate.reset()
+        for i, prog in enumerate(programs):
+            if fresh:
+                procstate.reset()
+            state = sysm.init(cfg)
+            st["states"] += 1
+            st["pair_programs"] += 1
+            marks = 0
+            pos = 0
+            obs = None
+            trace = []
+            try:
+                for pos, ev in enumerate(prog):
+                    ctx.marks = 0
+                    obs = sysm.step(cfg, state, ev, pos, ctx)
+                    trace.append(obs)
+                    st["transitions"] += 1
+                    marks += 1 if ctx.marks else 0
+            except Violation as v:
+                evs = prog[: pos + 1]
+                obs2, v2 = run_path(sysm, cfg, evs, seed)
+                same = v2 is not None and (v2.sub, v2.msg) == (v.sub, v.msg) and len(obs2) == pos
+                if not same:
+                    if not fresh:
+                        hidden = True
+                        break
+                    raise HarnessError("HARNESS-NONDET: two-object violation %r did not reproduce from scratch: cfg=%r events=%r"
+                                       % (v.sub, cfg, evs))
+                st["violations_raw"] += 1
+                st["sig:" + str(v.sig)] += 1
+                out["reported"][v.sig] += 1
+                if out["reported"][v.sig] <= 2:
+                    out["violations"].append(artefact(PROPERTY, sysm, cfg, seed, evs, v2))
+                continue
+            if not fresh and i % VALIDATE_EVERY == 0:
+                obs2, v2 = run_path(sysm, cfg, prog, seed)
+                if v2 is not None or not explorer._same(obs2, trace):
+                    hidden = True
+                    break
+                st["fresh_replays"] += 1
+            st["executions"] += 1
+            if marks:
+                st["nontrivial_executions"] += 1
+            if len(out["samples"]) < 1 and marks and len(prog) >= 4:
+                out["samples"].append({"system": sysm.name, "cfg": cfg, "events": prog, "last_obs": obs, "nontrivial_events": marks})
+        if not hidden:
+            break
+        # start over, this time with a pristine process state before every program
+        st.clear()
+        st.update(snapshot)
+        st["pair_configurations_rerun_with_a_process_state_reset_before_every_program"] += 1
+        del out["violations"][n_viol:]
+        del out["samples"][n_samp:]
+        out["reported"] = Counter(reported)
+
+
+# ---- stateless rules --------------------------------------------------------
+def _pair_params(kind, n, small=False):
+    if kind == "SimpleMajority":
+        return [{}]
+    if kind == "MinimumApproval":
+        return [{"approvals_needed": a} for a in range(1, n + 2)]
+    if small:
+        return [{"approvals_needed": a, "confirmations_needed": c} for a in range(1, n + 1) for c in range(0, 3)]
+    # a = 0 only with c >= 1 (see describe(): OrderedApproval(0, 0) is not judged)
+    return [{"approvals_needed": a, "confirmations_needed": c} for a in range(0, n + 2) for c in range(0, n + 2) if a + c >= 1]
+
+
+_SHORT = {"SimpleMajority": "SM", "MinimumApproval": "MA", "OrderedApproval": "OA", "Confirmed": "CE"}
+
+
+def _pid(kind, p):
+    return _SHORT[kind] + "".join("%s%d" % (k[0], v) for k, v in sorted(p.items()))
+
+
+def _pair_cfg(ka, pa, na, kb, pb, nb, share=False):
+    cfg = {"id": "pair-%s-n%d-%s-n%d%s" % (_pid(ka, pa), na, _pid(kb, pb), nb, "-shared" if share else ""),
+           "a": {"kind": ka, "params": pa, "n": na}, "b": {"kind": kb, "params": pb, "n": nb}}
+    if share:
+        cfg["share"] = True
+    return cfg
+
+
+def votes_pair_cfgs(task):
+    ka, kb, na, nb = task["kind_a"], task["kind_b"], task["n_a"], task["n_b"]
+    small = bool(task.get("small"))
+    pas = _pair_params(ka, max(na, nb), small)
+    pbs = _pair_params(kb, max(na, nb), small)
+    out = [(pa, pb) for pa in pas for pb in pbs]
+    return out[task.get("part", 0):: task.get("parts", 1)]
+
+
+SWEEP_PROGRAMS = list(interleavings([["new", 0], ["sweep", 0], ["sweep", 0]], [["new", 1], ["sweep", 1], ["sweep", 1]]))
+ALT_PROGRAM = [["new", 0], ["new", 1], ["alt"]]
+ALT_LATE_PROGRAM = [["new", 0], ["sweep", 0], ["new", 1], ["alt"]]
+
+
+def votes_pair_task(task, seed):
+    """Stateless rules: every ordered pair of parameter sets x every interleaving of (construct, sweep, sweep) of the two
+    objects (a sweep = all vectors) + strict alternation over every ordered pair of vectors, the latter on the caller's
+    persistent member objects (one list object handed to both elections when the lengths agree)."""
+    t0 = time.time()
+    ctx = Ctx(seed)
+    out = {"violations": [], "samples": [], "reported": Counter()}
+    ka, kb, na, nb = task["kind_a"], task["kind_b"], task["n_a"], task["n_b"]
+    for pa, pb in votes_pair_cfgs(task):
+        st = ctx.stats
+        st["pair_object_pairs"] += 1
+        st["pair_object_pairs_%s" % ("same_class" if ka == kb else "different_classes")] += 1
+        if ka == kb:
+            st["pair_object_pairs_%s_parameters" % ("same" if pa == pb else "different")] += 1
+        if na != nb:
+            st["pair_object_pairs_different_member_counts"] += 1
+        _run_programs(_pair_cfg(ka, pa, na, kb, pb, nb), SWEEP_PROGRAMS, seed, ctx, out)
+        # the second alternation (b constructed after a was swept) only where it is cheap (<= 81 pairs of vectors)
+        alts = [ALT_PROGRAM, ALT_LATE_PROGRAM] if na + nb <= 4 else [ALT_PROGRAM]
+        _run_programs(_pair_cfg(ka, pa, na, kb, pb, nb, share=True), alts, seed, ctx, out)
+    return {"stats": dict(ctx.stats), "violations": out["violations"], "samples": out["samples"], "wall": time.time() - t0}
+
+
+# ---- ConfirmedElection -------------------------------------------------------
+def _confirmed_params(n, waits):
+    return [{"sensitivity": s, "wait_time": w} for s in range(1, n + 2) for w in waits]
+
+
+def confirmed_pair_cfgs(task):
+    na, nb = task["n_a"], task["n_b"]
+    pas = _confirmed_params(na, task["waits"])
+    pbs = _confirmed_params(nb, task["waits"])
+    out = [(pa, pb) for pa in pas for pb in pbs]
+    return out[task.get("part", 0):: task.get("parts", 1)]
+
+
+def confirmed_pair_tree_task(task, seed):
+    """Every ordered pair of ConfirmedElection parameter sets x every pair of vote-vector histories of length h x every
+    interleaving of [construct a, a's calls] with [construct b, b's calls], once on fresh stubs per call and once on the
+    caller's persistent member objects."""
+    t0 = time.time()
+    ctx = Ctx(seed)
+    out = {"violations": [], "samples": [], "reported": Counter()}
+    na, nb, h = task["n_a"], task["n_b"], task["h"]
+    ha = [list(x) for x in itertools.product(_vectors(na), repeat=h)]
+    hb = [list(x) for x in itertools.product(_vectors(nb), repeat=h)]
+    for pa, pb in confirmed_pair_cfgs(task):
+        ctx.stats["pair_object_pairs"] += 1
+        ctx.stats["pair_confirmed_object_pairs_%s_parameters" % ("same" if pa == pb and na == nb else "different")] += 1
+        for share in task["share"]:
+            cfg = _pair_cfg("Confirmed", pa, na, "Confirmed", pb, nb, share=share)
+            programs = []
+            for xa in ha:
+                for xb in hb:
+                    programs.extend(interleavings([["new", 0]] + [["call", 0, v] for v in xa],
+                                                  [["new", 1]] + [["call", 1, v] for v in xb]))
+            _run_programs(cfg, programs, seed, ctx, out)
+    return {"stats": dict(ctx.stats), "violations": out["violations"], "samples": out["samples"], "wall": time.time() - t0}
+
+
+def _joint_graph(pa, na, pb, nb):
+    """Joint state space of the two MODELS (the real objects are not consulted): a state of one object is "U"
+    (not constructed), None (constructed, never called) or the tuple of remaining votes per member.  -> {joint state:
+    shortest program reaching it} in BFS order."""
+    sides = ((pa, na, _vectors(na)), (pb, nb, _vectors(nb)))
+
+    def succ(k, s, vec):
+        p = sides[k][0]
+        m = M.ConfirmedModel(p["sensitivity"], p["wait_time"])
+        m.left = None if s is None else list(s)
+        m.step(vec)
+        return tuple(m.left)
+
+    start = ("U", "U")
+    progs = {start: []}
+    q = deque([start])
+    while q:
+        j = q.popleft()
+        for k in (0, 1):
+            if j[k] == "U":
+                moves = [(["new", k], None)]
+            else:
+                moves = [(["call", k, v], succ(k, j[k], v)) for v in sides[k][2]]
+            for ev, s2 in moves:
+                j2 = (s2, j[1]) if k == 0 else (j[0], s2)
+                if j2 not in progs:
+                    progs[j2] = progs[j] + [ev]
+                    q.append(j2)
+    return progs
+
+
+def _enabled(j, na, nb):
+    evs = []
+    for k, n in ((0, na), (1, nb)):
+        if j[k] == "U":
+            evs.append(["new", k])
+        else:
+            evs.extend(["call", k, v] for v in _vectors(n))
+    return evs
+
+
+def confirmed_pair_reach_task(task, seed):
+    """Every reachable JOINT state of two ConfirmedElection objects (each: not constructed / constructed / every counter
+    state) x every sequence of ``tail`` enabled operations (construct either, call either on any vector); the joint
+    state is reached on freshly constructed real objects along a shortest program, every step judged."""
+    t0 = time.time()
+    ctx = Ctx(seed)
+    st = ctx.stats
+    out = {"violations": [], "samples": [], "reported": Counter()}
+    na, nb, tail = task["n_a"], task["n_b"], task["tail"]
+    for pa, pb in confirmed_pair_cfgs(task):
+        st["pair_object_pairs"] += 1
+        st["pair_confirmed_object_pairs_%s_parameters" % ("same" if pa == pb and na == nb else "different")] += 1
+        cfg = _pair_cfg("Confirmed", pa, na, "Confirmed", pb, nb, share=task["share"])
+        graph = _joint_graph(pa, na, pb, nb)
+        want = ((pa["wait_time"] + 1) ** na + 2) * ((pb["wait_time"] + 1) ** nb + 2)
+        if len(graph) != want:
+            raise HarnessError("HARNESS-CRASH: joint model state space of %r has %d states, expected %d" % (cfg["id"], len(graph), want))
+        st["pair_confirmed_joint_states"] += len(graph)
+        programs = []
+        for j, prog in graph.items():
+            if j[0] not in ("U", None) and j[1] not in ("U", None) and any(j[0]) and any(j[1]):
+                st["pair_confirmed_joint_states_with_waiting_members_in_both_objects"] += 1
+            tails = [[]]
+            for _ in range(tail):
+                nxt = []
+                for tl in tails:
+                    # the operations enabled after tl: only construction changes the enabled set
+                    built = [j[0] != "U" or ["new", 0] in tl, j[1] != "U" or ["new", 1] in tl]
+                    jj = (None if built[0] else "U", None if built[1] else "U")
+                    nxt.extend(tl + [e] for e in _enabled(jj, na, nb))
+                tails = nxt
+            st["pair_confirmed_joint_state_x_operation_sequences"] += len(tails)
+            programs.extend(prog + tl for tl in tails)
+        _run_programs(cfg, programs, seed, ctx, out)
+    return {"stats": dict(st), "violations": out["violations"], "samples": out["samples"], "wall": time.time() - t0}
+
+
+# --------------------------------------------------------------------------
+SYSTEMS = {"Votes": VoteSys(), "Confirmed": ConfirmedSys(), "ConfirmedTLA": ScriptSys(), "ElectionPair": PairSys()}
 
 BOUNDS = {
     "quick": {"n_stateless": 5, "n_confirmed": 4, "wait_max": 3, "n_reuse": 4, "n_far": 3, "n_spell": 4},
@@ -948,6 +1411,65 @@ def _confirmed(n, s, w, fam=None, spell=False):
         "label": label,
         "cost": (w + 1) ** n * 3 ** n / 100.0,
     }
+
+
+PAIR_BOUNDS = {
+    # stateless: largest n per class for pairs of the same class / n values for pairs of different classes / (n_a, n_b)
+    # with different member counts; ConfirmedElection: tree = (n_a, n_b, history length per object, wait_times),
+    # reach = (n_a, n_b, operations after every joint state, wait_times)
+    "quick": {"sm_n": 4, "ma_n": 4, "oa_n": 3, "cross_n": (2, 3), "mixed": ((0, 2), (2, 0), (1, 3), (3, 1), (2, 3), (3, 2)),
+              "tree": ((1, 1, 2, (0, 1, 2)), (2, 2, 1, (0, 1, 2)), (1, 2, 1, (0, 1, 2)), (2, 1, 1, (0, 1, 2))),
+              "reach": ((1, 1, 2, (0, 1, 2)), (2, 2, 1, (0, 1, 2)), (1, 2, 1, (0, 1, 2)), (2, 1, 1, (0, 1, 2)))},
+    "thorough": {"sm_n": 5, "ma_n": 5, "oa_n": 4, "cross_n": (2, 3, 4), "mixed": ((0, 2), (2, 0), (1, 3), (3, 1), (2, 3), (3, 2), (1, 4), (4, 1)),
+                 "tree": ((1, 1, 3, (0, 1, 2)), (2, 2, 1, (0, 1, 2, 3)), (1, 2, 2, (0, 1, 2)), (2, 1, 2, (0, 1, 2))),
+                 "reach": ((1, 1, 3, (0, 1, 2, 3)), (2, 2, 2, (0, 1, 2)), (1, 2, 2, (0, 1, 2)), (2, 1, 2, (0, 1, 2)), (3, 3, 1, (0, 1)))},
+}
+STATELESS = ("SimpleMajority", "MinimumApproval", "OrderedApproval")
+
+
+def pair_tasks(tier):
+    """round 5: two election objects alive in one process (every task is an "fn" task on the ElectionPair system)"""
+    pb = PAIR_BOUNDS[tier]
+    out = []
+
+    def votes(ka, kb, na, nb, small=False):
+        n = max(na, nb)
+        npairs = len(_pair_params(ka, n, small)) * len(_pair_params(kb, n, small))
+        per_pair = 20 * 2 * (3 ** na + 3 ** nb) + (2 if na + nb <= 4 else 1) * 2 * 3 ** (na + nb)  # calls
+        parts = max(1, min(16, int(npairs * per_pair / 150000.0)))
+        for part in range(parts):
+            out.append({"fn": "votes_pair_task", "kind_a": ka, "kind_b": kb, "n_a": na, "n_b": nb, "small": small,
+                        "part": part, "parts": parts,
+                        "label": "PairVotes|%sx%s|n%d,%d|part%d/%d" % (_SHORT[ka], _SHORT[kb], na, nb, part + 1, parts),
+                        "cost": npairs * per_pair / parts / 1000.0})
+
+    for kind, nmax in (("SimpleMajority", pb["sm_n"]), ("MinimumApproval", pb["ma_n"]), ("OrderedApproval", pb["oa_n"])):
+        for n in range(1, nmax + 1):
+            votes(kind, kind, n, n)
+        for na, nb in pb["mixed"]:
+            votes(kind, kind, na, nb, small=True)
+    for ka in STATELESS:
+        for kb in STATELESS:
+            if ka != kb:
+                for n in pb["cross_n"]:
+                    votes(ka, kb, n, n, small=True)
+    for na, nb, h, waits in pb["tree"]:
+        npairs = len(_confirmed_params(na, waits)) * len(_confirmed_params(nb, waits))
+        parts = max(1, min(16, npairs // 4))
+        for part in range(parts):
+            out.append({"fn": "confirmed_pair_tree_task", "n_a": na, "n_b": nb, "h": h, "waits": list(waits), "share": [False, True],
+                        "part": part, "parts": parts,
+                        "label": "PairConfirmed|tree|n%d,%d|h%d|part%d/%d" % (na, nb, h, part + 1, parts),
+                        "cost": npairs * (3 ** (na + nb)) ** h * 20 / parts / 100.0})
+    for na, nb, tail, waits in pb["reach"]:
+        npairs = len(_confirmed_params(na, waits)) * len(_confirmed_params(nb, waits))
+        parts = max(1, min(16, npairs // 4))
+        for part in range(parts):
+            out.append({"fn": "confirmed_pair_reach_task", "n_a": na, "n_b": nb, "tail": tail, "waits": list(waits), "share": True,
+                        "part": part, "parts": parts,
+                        "label": "PairConfirmed|reach|n%d,%d|tail%d|part%d/%d" % (na, nb, tail, part + 1, parts),
+                        "cost": npairs * (3 ** na + 3 ** nb) ** tail * 50 / parts / 100.0})
+    return out
 
 
 def tasks(tier, seed):
@@ -1003,6 +1525,7 @@ def tasks(tier, seed):
         for s in (1, 2, 3):
             out.append({"fn": "stagger_task", "wait_time": w, "sensitivities": [s],
                         "label": "ConfirmedStagger|w%d|s%d" % (w, s), "cost": 50 if w == 300 else 5})
+    out.extend(pair_tasks(tier))
     # VERIF_ROUND3=off / only: run the pre-round-3 tasks / the round-3 families alone (used to show which family
     # catches a mutant; the default is everything).  "Votes|*|n0" counts as round 3.
     n0 = [t for t in base if t["label"].startswith("Votes|") and t["label"].endswith("|n0")]
@@ -1092,6 +1615,42 @@ _REQUIRED = [
     "stagger_warning_postpones_last_vote",
     "stagger_never_expiring_counters_beyond_300",
     "tla_members",
+    # ---- round 5: two election objects alive in one process (no random numbers anywhere) ----
+    "pair_programs",
+    "pair_calls",
+    "pair_sweeps",
+    "pair_alternations",
+    "pair_object_pairs_same_class",
+    "pair_object_pairs_different_classes",
+    "pair_object_pairs_same_parameters",
+    "pair_object_pairs_different_parameters",
+    "pair_object_pairs_different_member_counts",
+    "pair_object_constructed_after_the_other_was_called",
+    "pair_older_object_called_after_the_newer_one_was_constructed",
+    "pair_object_called_again_after_the_other_was_constructed_in_between",
+    "pair_same_votes_different_verdicts_from_the_two_objects",
+    "pair_adjacent_calls_with_different_votes",
+    "pair_calls_on_the_callers_persistent_member_objects",
+    "pair_calls_with_the_same_list_object_for_both_elections",
+    "pair_SimpleMajority_verdict_drift",
+    "pair_SimpleMajority_verdict_none",
+    "pair_MinimumApproval_verdict_drift",
+    "pair_MinimumApproval_verdict_none",
+    "pair_OrderedApproval_verdict_drift",
+    "pair_OrderedApproval_verdict_none",
+    "pair_Confirmed_verdict_drift",
+    "pair_Confirmed_verdict_warning",
+    "pair_Confirmed_verdict_none",
+    "pair_confirmed_object_pairs_same_parameters",
+    "pair_confirmed_object_pairs_different_parameters",
+    "pair_confirmed_alarm_while_the_other_object_has_waiting_members",
+    "pair_confirmed_constructed_while_the_other_object_has_waiting_members",
+    "pair_confirmed_expiry_while_the_other_object_still_waits",
+    "pair_confirmed_waiting_vote_after_a_call_of_the_other_object",
+    "pair_confirmed_warning_while_waiting",
+    "pair_confirmed_joint_states",
+    "pair_confirmed_joint_states_with_waiting_members_in_both_objects",
+    "pair_confirmed_joint_state_x_operation_sequences",
 ]
 _R3_AT = _REQUIRED.index("empty_member_list_calls")
 
@@ -1106,6 +1665,7 @@ def REQUIRED(tier):
 
 def describe(tier):
     b = BOUNDS[tier]
+    pb = PAIR_BOUNDS[tier]
     return {
         "rule": "(1) every vector of {None,warning,drift}^n for every n and every parameter value in the bound, on stub "
         "members, one election object per parameter set; (2) ConfirmedElection: depth-first search with the "
@@ -1117,7 +1677,20 @@ def describe(tier):
         "on other kinds of member objects; ConfirmedElection additionally with n = 0, sensitivity 0 / far above n, "
         "spelled reports, long waits (complete counter-state space) and scripted staggered alarms (n = 3, every pair "
         "of offsets) with long quiet stretches in lock-step with the model. "
-        "An execution is one election call compared with the rule; non-trivial = verdict other than None",
+        "Round 5 (two election objects alive in one process, system ElectionPair, every object judged by its OWN "
+        "voting-rule model): stateless rules -- every ordered pair of parameter sets of the same class (same and different "
+        "parameters, also different member counts) and of different classes x all 20 interleavings of (construct, sweep, "
+        "sweep) of the two objects (a sweep = every vote vector; so either construction order, and the second object "
+        "constructed before / between / after the sweeps of the first) + strict alternation a(v) b(v') over EVERY ordered "
+        "pair of vectors on the caller's persistent member objects (the same list object handed to both elections); "
+        "ConfirmedElection -- tree: every ordered pair of parameter sets x every pair of vote-vector histories of length h "
+        "x every interleaving of [construct, calls] of the two objects, on fresh stubs and on persistent members; reach: "
+        "every joint state of the two per-object models (not constructed / constructed / every counter state) reached on "
+        "fresh real objects along a shortest program x every sequence of `tail` enabled operations; after every operation "
+        "the counters of the object that was NOT operated on are read and must be what its own last call left. Every "
+        "program runs on freshly constructed objects; every 199th and every violating one is repeated from a pristine "
+        "process state (mc.procstate) and must agree, else the configuration is run again with a reset before every program. "
+        "An execution is one election call compared with the rule (round 5: one program); non-trivial = verdict other than None",
         "bounds": {
             "reports": ["None", "warning", "drift"],
             "stateless_n": [0, b["n_stateless"]],
@@ -1143,6 +1716,18 @@ def describe(tier):
                             "offsets": "wait 5: every pair from 0..7; wait 300: every pair from {0,1,2,150,299,300,301,302}; "
                             "wait 10^9: every pair from {0,1,5} followed by 400 quiet calls"},
             },
+            "round5_two_objects": {
+                "stateless_same_class": "SimpleMajority n = 1..%d; MinimumApproval n = 1..%d, a = 1..n+1; OrderedApproval n = 1..%d, "
+                "a = 0..n+1 x c = 0..n+1 (a + c >= 1); every ORDERED pair of parameter sets" % (pb["sm_n"], pb["ma_n"], pb["oa_n"]),
+                "stateless_different_member_counts_(n_a,n_b)": [list(x) for x in pb["mixed"]],
+                "stateless_different_classes": "every ordered pair of distinct classes, n = %s; MinimumApproval a = 1..n+1, "
+                "OrderedApproval a = 1..n x c = 0..2 (also used for the different-member-count pairs)" % (list(pb["cross_n"]),),
+                "stateless_programs": "20 interleavings of [new a, sweep a, sweep a] with [new b, sweep b, sweep b]; [new a, new b, alt]; "
+                "[new a, sweep a, new b, alt] when 3^(n_a+n_b) <= 81; alt = a(v) b(v') for every ordered pair (v, v'), on persistent members",
+                "confirmed_parameters": "sensitivity 1..n+1 x the wait_times listed, every ordered pair",
+                "confirmed_tree_(n_a,n_b,h,wait_times)": [[a, b_, h, list(w)] for a, b_, h, w in pb["tree"]],
+                "confirmed_reach_(n_a,n_b,tail,wait_times)": [[a, b_, t, list(w)] for a, b_, t, w in pb["reach"]],
+            },
         },
         "explanation": "states = election objects x vote vectors (stateless rules) + reachable ConfirmedElection counter "
         "states + TLC states; traces_validated_against_impl = election calls on the real classes compared with the "
@@ -1164,5 +1749,11 @@ def describe(tier):
             "of every detector accepts); other values (\"Drift\", False, 0, \"\") are not legal and not used",
             "one ConfirmedElection object is never called with member lists of different lengths: its counters are "
             "sized by the first call and the documentation promises nothing for a changing number of members",
+            "round 5: two elections in one process owe each other nothing -- each is judged by its own rule exactly as a solo "
+            "object would be; handing the same member objects / the same list object to two elections is legal (an election "
+            "only reads drift_state); pairs of a ConfirmedElection with a stateless election are not explored; the joint "
+            "ConfirmedElection state space is enumerated from the per-object MODELS and then reached on the real objects, "
+            "state kept by a changed implementation outside wait_period_counters is covered only as far as the tree programs "
+            "(all histories of length h) and the `tail` operations after every joint state reach",
         ],
     }
